@@ -58,11 +58,15 @@ type Policy struct {
 	// SectionOrder: "" sections in code order | "reverse" | "shuffle" — the sections
 	// of a CMap may come in any order (entries inside a section stay ascending)
 	SectionOrder string
+	// Comments: PostScript comments (the DSC header real CMap resources start with,
+	// and a comment line in front of every section); line layouts only — in the
+	// one-line layout a comment would run to the end of the program
+	Comments bool
 }
 
 func (p Policy) String() string {
 	return fmt.Sprintf("%s tight=%v upper=%v prange=%.2f parray=%.2f maxsec=%d abreak=%d hexblank=%v full=%v grouped=%v",
-		p.Layout, p.Tight, p.UpperHex, p.PRange, p.PArray, p.MaxSection, p.ArrayBreak, p.HexBlank, p.FullHeader, p.Grouped) + " sections=" + p.SectionOrder
+		p.Layout, p.Tight, p.UpperHex, p.PRange, p.PArray, p.MaxSection, p.ArrayBreak, p.HexBlank, p.FullHeader, p.Grouped) + " sections=" + p.SectionOrder + fmt.Sprintf(" comments=%v", p.Comments)
 }
 
 // Stats says what the rendered program contains.
@@ -237,6 +241,15 @@ func Render(m *Map, p Policy, r *rand.Rand) ([]byte, Stats) {
 	}
 
 	// 2. header
+	comments := p.Comments && p.Layout != "oneline"
+	if comments {
+		w.line("%!PS-Adobe-3.0 Resource-CMap")
+		w.line("%%DocumentNeededResources: ProcSet (CIDInit)")
+		w.line("%%IncludeResource: ProcSet (CIDInit)")
+		w.line("%%BeginResource: CMap (Adobe-Identity-UCS)")
+		w.line("%%Title: (Adobe-Identity-UCS Adobe UCS 0)")
+		w.line("%%EndComments")
+	}
 	if p.FullHeader {
 		w.line("/CIDInit /ProcSet findresource begin")
 		w.line("12 dict begin")
@@ -266,6 +279,9 @@ func Render(m *Map, p Policy, r *rand.Rand) ([]byte, Stats) {
 		}
 		if j-i > st.MaxSectionEntries {
 			st.MaxSectionEntries = j - i
+		}
+		if comments && r.Intn(2) == 0 {
+			w.line("% the mappings of the next section follow")
 		}
 		if class {
 			st.CharSections++
